@@ -14,7 +14,7 @@ package hashring
 //@ func (*Ring).Insert
 //@   property C45
 //@   option safety off
-//@   option stable map[string]V, map[string]struct{}, (*Ring).members, (*Ring).deletedKeys
+//@   option stable map[string]V, map[string]struct{}, (*Ring).members, (*Ring).deletedKeys, (*Ring).sorted
 //@   requires hrOK(r)
 //@   ensures hrOK(r)
 //@   ensures forall j string :: hrLive(r, j) == (j == key || old(hrLive(r, j)))
